@@ -25,3 +25,20 @@ mut("C09-1", "C09", O, "		if content.Equal(desc, target) {\n			s.tagResolver.Unt
 mut("C09-2", "C09", O, "				if !s.isTagged(d) {\n					deleteQueue = append(deleteQueue, d)\n				}", "				deleteQueue = append(deleteQueue, d)", ["Delete/call:append"], "danglings queued without the tag test")
 mut("C09-4", "C09", O, "	if tagSet.Contains(string(desc.Digest)) {\n		return len(tagSet) > 1\n	}\n	return len(tagSet) > 0", "	return len(tagSet) > 0", ["isTagged/post:exact"], "isTagged counts the digest self-reference as a tag")
 mut("C09-3", "C09", O, "		danglings, err := s.delete(ctx, head)\n		if err != nil {\n			return err\n		}", "		danglings, _ := s.delete(ctx, head)", ["Delete/decreases:loop0"], "Delete ignores delete errors (no progress guaranteed)")
+mut("C09-5", "C09", O, """			var err error
+			subject, err = manifestutil.Subject(ctx, s.storage, *subject)
+			if err != nil {
+				if errors.Is(err, errdef.ErrNotFound) {
+					// the chain ends at a subject that is not in the store
+					break
+				}
+				return err
+			}
+""", """			subject, err := manifestutil.Subject(ctx, s.storage, *subject)
+			if err != nil {
+				return err
+			}
+""", ["gcIndex/decreases:loop2"], "(canary) pre-fix gcIndex: shadowed subject, GC hangs")
+mut("C09-11", "C09", O, "			if !reachableNodes.Contains(blobDigest) {\n", "			if reachableNodes.Contains(blobDigest) {\n", ["GC/call:Remove#0/requires:remove-only-unreachable"], "GC removes the reachable blobs")
+mut("C09-12", "C09", O, "		if !isKnownAlgorithm(alg) {\n			continue\n		}\n", "", ["GC/call:Remove#0/requires:known-algorithm-only"], "GC descends into unknown algorithm directories")
+mut("C09-13", "C09", "internal/graph/memory.go", "		s.Add(desc.Digest)\n", "		if len(s) == 0 {\n			s.Add(desc.Digest)\n		}\n", ["DigestSet/"], "DigestSet reports only one digest")
